@@ -425,7 +425,10 @@ func (mo *monitor) observe(c *raftsim.Cluster, op string, res raftsim.Result) {
 				}
 			}
 			if f[0] != "RESTART" && f[0] != "START" && grants < voting/2+1 {
-				mo.v("C03", "replica %d became leader of term %d with %d votes (its own included) out of %d voting members", n.ID, st.Term, grants, voting)
+				// C03 (election by a quorum) and C18 (witnesses count as voting members)
+				for _, tag := range []string{"C03", "C18"} {
+					mo.v(tag, "replica %d became leader of term %d with %d votes (its own included) out of %d voting members", n.ID, st.Term, grants, voting)
+				}
 			}
 			// leader completeness: the new leader holds every entry committed so far
 			for idx, rec := range mo.committed {
@@ -584,7 +587,7 @@ func (mo *monitor) checkRead(node, low, high, index uint64) {
 
 const fairRounds = 120
 
-var progressOK, progressInconclusive int
+var progressOK, progressInconclusive, progressDown int
 
 func runCases(a vh.Args) {
 	rule := map[string]string{
@@ -633,6 +636,26 @@ func runCases(a vh.Args) {
 				progressInconclusive++
 			} else {
 				progressOK++
+				// the same fault prefix again, then one voting member stays down: the
+				// remaining connected quorum must still make progress
+				c2 := raftsim.ParseHeader(hf[1])
+				okPrefix := true
+				for _, opt := range strings.Split(sp[1], " ; ") {
+					if op, rt := raftsim.SplitOp(opt); op != "" {
+						if c2.Exec(op, rt, true).Panicked {
+							okPrefix = false
+							break
+						}
+					}
+				}
+				if okPrefix {
+					d2 := &raftsim.Driver{C: c2, DownOne: true}
+					if why := d2.FairPhase(fairRounds); why != "" && len(d2.Down) > 0 {
+						mo.v("C17", "%s", why)
+					} else if len(d2.Down) > 0 && !d2.Inconclusive {
+						progressDown++
+					}
+				}
 			}
 		}
 		for _, v := range mo.viol {
@@ -651,7 +674,7 @@ func runCases(a vh.Args) {
 	}
 	obs.Close()
 	if prop == "C17" {
-		st.Notes["fair_phase"] = fmt.Sprintf("%d schedules reached leader+commit+catch-up within %d fault-free rounds; %d inconclusive (a replica started with a kind contradicting the membership)", progressOK, fairRounds, progressInconclusive)
+		st.Notes["fair_phase"] = fmt.Sprintf("%d schedules reached leader+commit+catch-up within %d fault-free rounds; %d inconclusive (a replica started with a kind contradicting the membership); %d of them again with one voting member down", progressOK, fairRounds, progressInconclusive, progressDown)
 	}
 	st.Write(a.Out)
 }
